@@ -43,10 +43,14 @@ inductive Wire where
   | initialized
   deriving Repr, DecidableEq
 
-/-- Transcript entry: a write, or the instant the peer's answer is delivered. -/
+/-- Transcript entry: a write (the client starts sending `w`; with a write side that accepts at
+once this is also the hand-over), the instant the peer's answer is delivered, or the instant
+the write side takes the pending notification off the client's hands (`handed`, only in the
+models with an explicit write side, `clientInitW` below). -/
 inductive Ev where
   | sent (w : Wire)
   | answered
+  | handed
   deriving Repr, DecidableEq
 
 inductive Outcome where
@@ -62,6 +66,8 @@ inductive Outcome where
   | timedOut
   /-- `IndexError`: nothing to propose -/
   | noVersions
+  /-- the call has not returned: its send of the notification is still pending -/
+  | blocked
   deriving Repr, DecidableEq
 
 /-- `needle in hay` on character lists -/
@@ -93,6 +99,41 @@ def clientInit (sup : List String) (pref : Option String) (ans : Answer) : Outco
     | .version s =>
       if s = p ∨ s ∈ sup then (.ok s, [req, .answered, .sent .initialized])
       else (.mismatch, [req, .answered])
+
+/-! ### Write side with backpressure
+
+`write_stream.send` is a rendezvous: it completes when the write side (an unbuffered or full
+memory stream whose reader is the transport / the peer) takes the item.  `send_initialize`
+awaits that send with no bound of its own, so it returns only after the hand-over. -/
+
+/-- What the write side does with the notification once the client starts sending it:
+take it `delay` ticks later, or never. -/
+inductive WriteSide where
+  | accepts (delay : Nat)
+  | never
+  deriving Repr, DecidableEq
+
+/-- `send_initialize` against an explicit write side (blocking send, as in the code). -/
+def clientInitW (sup : List String) (pref : Option String) (ans : Answer) (w : WriteSide) :
+    Outcome × List Ev :=
+  match clientInit sup pref ans with
+  | (.ok v, t) =>
+    match w with
+    | .accepts _ => (.ok v, t ++ [.handed])
+    | .never => (.blocked, t)
+  | r => r
+
+/-- COUNTER-MODEL (not the code): the send wrapped in `move_on_after(T)` — the pending send is
+silently abandoned at the deadline and the call still returns the result.  `eventsFirst` is the
+order at the instant `delay = T`. -/
+def clientInitMoveOn (T : Nat) (eventsFirst : Bool) (sup : List String) (pref : Option String)
+    (ans : Answer) (w : WriteSide) : Outcome × List Ev :=
+  match clientInit sup pref ans with
+  | (.ok v, t) =>
+    match w with
+    | .accepts d => if d < T ∨ (d = T ∧ eventsFirst = true) then (.ok v, t ++ [.handed]) else (.ok v, t)
+    | .never => (.ok v, t)
+  | r => r
 
 /-! ### Tracked client (`send_initialize_with_client_tracking` + `BatchProcessor`) -/
 
@@ -185,6 +226,27 @@ structure InitReply where
 def handleInitialize (sup : List String) (dflt : Option String) (r : Requested) : InitReply :=
   let v := serverAnswer sup dflt r
   { answered := v, recorded := v }
+
+/-! ### Sequences of initialize requests on one handler
+
+The session store is modelled as the list of recorded versions; a session id is a position in
+it.  Every initialize — whether or not the message is accompanied by a session id (`carry`: a
+live one, a stale one, none) — creates a fresh session recording the answered version. -/
+
+/-- One initialize of a sequence: the requested value and the session id the transport passes along. -/
+abbrev InitStep := Requested × Option Nat
+
+/-- Runs the steps from store `st`.  Per step: the answered version and what the store holds,
+right after that step, under the session id returned for that step.  Also the final store. -/
+def runInits (sup : List String) (dflt : Option String) :
+    List String → List InitStep → List (String × Option String) × List String
+  | st, [] => ([], st)
+  | st, (r, _carry) :: rest =>
+    let rep := handleInitialize sup dflt r
+    let st' := st ++ [rep.recorded]
+    let sid := st.length
+    let tail := runInits sup dflt st' rest
+    ((rep.answered, st'[sid]?) :: tail.1, tail.2)
 
 /-- Library client against library server: the client's outcome and transcript, and the
 version the server's session records (`none`: the request was never sent). -/
